@@ -419,7 +419,8 @@ class ConsumerMdib(mdibbase.MdibBase):
                         )
                         old_state_container.update_from_other_container(state_container)
                         src.update_object(old_state_container)
-                        states_by_handle[old_state_container.DescriptorHandle] = old_state_container
+                        # key is the handle of the context state (there can be multiple states per descriptor)
+                        states_by_handle[old_state_container.Handle] = old_state_container
                 else:
                     self._logger.info(  # noqa: PLE1205
                         'new context state: handle = {} Descriptor Handle={} Assoc={}, Validators={}',
@@ -752,6 +753,8 @@ class ConsumerMdib(mdibbase.MdibBase):
                                 )
                             else:
                                 old_container.update_from_other_container(descriptor_container)
+                                # indexed members (e.g. ConditionSignaled, Source) might have changed
+                                self.descriptions.update_object(old_container)
                             updated_descriptor_by_handle[descriptor_container.Handle] = descriptor_container
                             # if this is a context descriptor, delete all associated states that are not in
                             # state_containers list
